@@ -97,7 +97,16 @@ TmplArgs ==
       ov |-> [NoOv EXCEPT !.major = x1, !.post = x2], bp |-> [NoOv EXCEPT !.patch = x3, !.minor = x4, !.dev = x5],
       ops |-> <<>>, vcs |-> [NoVcs EXCEPT !.distance = d], schema |-> NoSchema ]
     : s \in {1, 2}, x1 \in RefVals, x2 \in RefVals, x3 \in RefVals, x4 \in {NONE, -13}, x5 \in {NONE, -14, -12}, d \in {NONE, 0, 3} }
-ArgSpace == CASE Mode = "tmpl" -> TmplArgs [] Mode = "names" -> NamesArgs [] Mode = "index" -> IndexArgs [] Mode = "vcs" -> VcsArgs [] Mode = "order" -> OrderArgs
+\* ---- mode "tier": the smart-preset tier table of C06, exhaustively ----
+AllSuffixes == {"", "-no-context", "-context", "-base", "-base-prerelease", "-base-prerelease-post", "-base-prerelease-post-dev",
+                "-base-context", "-base-prerelease-context", "-base-prerelease-post-context", "-base-prerelease-post-dev-context"}
+TierArgs ==
+  { [ src |-> SrcNone, hasTag |-> TRUE, tag |-> V(NONE, 1, 2, 3, l, IF l = "none" THEN NONE ELSE 1, po, NONE),
+      ov |-> NoOv, bp |-> NoOv, ops |-> <<>>,
+      vcs |-> [NoVcs EXCEPT !.distance = d, !.dirty = (di = 1), !.nodirty = (di = 0), !.branch = 1, !.hash = 1],
+      schema |-> [kind |-> "preset", fam |-> fam, suffix |-> sfx, sch |-> FullTier, order |-> DefaultOrder] ]
+    : l \in {"none", "rc"}, po \in {NONE, 0, 2}, d \in {NONE, 0, 3}, di \in {NONE, 0, 1}, fam \in {"standard", "calver"}, sfx \in AllSuffixes }
+ArgSpace == CASE Mode = "tier" -> TierArgs [] Mode = "tmpl" -> TmplArgs [] Mode = "names" -> NamesArgs [] Mode = "index" -> IndexArgs [] Mode = "vcs" -> VcsArgs [] Mode = "order" -> OrderArgs
 
 Init == \E args \in ArgSpace : InitWith(args)
 Spec == Init /\ [][Next]_vars
